@@ -1548,7 +1548,7 @@ template <class MT> static void label_right_operand (vp::Ctx& c, const MT& B, in
 }
 
 // ---- matrix x matrix ----------------------------------------------------------------------
-// measured worst err/(u*sum|terms|): mat22 1.90  mat33 2.56  mat44 3.14 (float), 1.93 / 2.61 / 3.22 (double)
+// measured worst err/(u*sum|terms|) (seeds 1-4, 2e6 cases each): mat22 1.97  mat33 2.84  mat44 3.43 (float), 1.97 / 2.74 / 3.44 (double);  k = N+1
 template <class T> static void struct_matmul_case (vp::Ctx& c)
 {
     vp::Src& s = c.s;
@@ -1649,7 +1649,8 @@ template <class S, class T, int NV, class MT> static void fix_w_struct (vp::Ctx&
     if (c.s.coin ()) nv = -nv;
     m[NV][NV] = nv;
 }
-// measured worst: plain slots 3.2 u*sum|terms|, homogeneous err/bound 0.97
+// measured worst (seeds 1-4, 2e6 cases each; units of u*sum|terms|): v2m22 1.95  v3m33 2.72  v4m44 3.06  multDirMatrix 1.97 / 2.73;
+// float vector x double matrix 1.00 (one rounding);  homogeneous err/bound 0.999 (the half-ulp of the final division)
 template <class S, class T> static void struct_vecmat_case (vp::Ctx& c)
 {
     vp::Src&  s    = c.s;
@@ -1752,7 +1753,8 @@ template <class T, int N, class MT> static bool product_in_range (const MT& A, c
     if (amax == 0 || bmax == 0) return true;
     return amax * bmax * N < std::ldexp (1.0, 30) && amin * bmin >= std::ldexp (1.0, -28);
 }
-// measured worst: det22 1.9  det33 3.4  det44 4.6  minorOf44 3.6  fastMinor44 3.5  det(AB) 3.5 / 5.1 / 8.3
+// measured worst (seeds 1-4, 1.2e6 cases each): det22 1.98  det33 3.41  det44 4.06  det(A^T) 1.98 / 3.31 / 4.09  minorOf33 1.99  minorOf44 3.74
+// fastMinor33 1.94  fastMinor44 3.36  det(AB) 3.29 / 4.61 / 5.47 in units of u*perm(|A||B|)   (k = 3 / 6 / 10, minors 3 / 6)
 template <class T> static void struct_det_case (vp::Ctx& c)
 {
     vp::Src& s = c.s;
@@ -1799,6 +1801,7 @@ VP_LABELS (struct_det_d, C05S_LABELS)
 VP_REQUIRE_LABELS (struct_det_d, C05S_MAT_REQ, "affine_last_column", "det44_skip0", "det44_skip1", "det44_skip2", "det44_skip3", "det44_skip_all", "det44_skip_on_negative_zero")
 
 // ---- vectors and quaternions: special entries and exact relations between the operands ---------------
+// measured worst (seeds 1-4): dot2 1.98  dot3 2.43  dot4 2.81  cross2 1.91  cross3 1.97;  quat r 3.09  v 2.76  dot 3.00
 // a: small-integer vector; b in an exact relation to it.  Everything stays an integer, so dot / cross / Hamilton
 // products are exact and equality is demanded (cross of exact multiples == 0, dot of perpendicular == 0).
 static const int REL_P[] = { 3, 5, 6, 7, 9, 10, 11, 12, 13, 14, 15, 17, 19, 21, 23, 25, 27, 29, 31 };
